@@ -163,8 +163,85 @@ def cases_F08(task):
                 yield ("F/%s/%s/" % ("-".join(seq), fs), vec, prog, stats)
 
 
+# Layer K: Fortran has no reserved words.  Every statement form that begins with (or
+# carries in its key position) a user name, with the name drawn from identifiers that
+# START WITH A KEYWORD of either standard (round 8: 'do concurrent_idx = 1, 10').
+# Only programs the f2003 parser accepts are judged (the property's premise).
+K_PREFIXES = [
+    "concurrent", "while", "do", "if", "then", "else", "elseif", "end", "enddo", "endif", "block", "endblock",
+    "critical", "error", "errorstop", "stop", "select", "case", "type", "class", "allocate", "open", "newunit",
+    "sync", "lock", "unlock", "codimension", "contiguous", "submodule", "impure", "mold", "associate", "forall",
+    "where", "call", "print", "integer", "real", "go", "goto", "return", "continue", "format", "data", "result",
+    "function", "subroutine", "module", "program", "use", "import", "procedure", "enum", "exit", "cycle", "only",
+]
+K_SUFFIXES = ["", "_idx", "1", "x"]
+K_FORMS = [
+    ("assign", ["%(n)s = 1"]),
+    ("assign-el", ["%(n)sv(1) = %(n)s + 1"]),
+    ("do", ["do %(n)s = 1, 10", "a = a + %(n)s", "end do"]),
+    ("do-comma", ["do, %(n)s = 1, 10, 2", "a = a + 1", "end do"]),
+    ("do-named", ["nm: do %(n)s = 1, 3", "a = %(n)s", "end do nm"]),
+    ("do-label", ["do 10 %(n)s = 1, 3", "a = %(n)s", "10 continue"]),
+    ("do-label-comma", ["do 10, %(n)s = 1, 3", "a = %(n)s", "10 continue"]),
+    ("do-while", ["do while (%(n)s < 3)", "%(n)s = %(n)s + 1", "end do"]),
+    ("if-stmt", ["if (%(n)s > 0) %(n)s = 2"]),
+    ("if-then", ["if (%(n)s > 0) then", "%(n)s = 2", "else if (%(n)s < 0) then", "%(n)s = 3", "end if"]),
+    ("call", ["call ext(%(n)s, %(n)sv)"]),
+    ("io", ["print *, %(n)s, %(n)sv(1)", "read(5, *) %(n)s", "write(6, *) (%(n)sv(%(n)s), %(n)s = 1, 3)"]),
+    ("alloc", ["allocate(%(n)sp(3))", "deallocate(%(n)sp)"]),
+    ("select", ["select case (%(n)s)", "case (1)", "%(n)s = 2", "case default", "%(n)s = 3", "end select"]),
+    ("forall", ["forall (%(n)s = 1:3) %(n)sv(%(n)s) = 0"]),
+    ("where", ["where (%(n)sv > 0) %(n)sv = 0"]),
+    ("ptr", ["%(n)sp => %(n)sv"]),
+]
+
+
+def k_names():
+    return [p + s for p in K_PREFIXES for s in K_SUFFIXES]
+
+
+def k_program(n, form):
+    spec = [
+        G.S("integer :: %s, a" % n, "decl"),
+        G.S("integer, target :: %sv(10)" % n, "decl"),
+        G.S("integer, pointer :: %sp(:)" % n, "decl"),
+    ]
+    return " subroutine sub()\n" + "".join("  %s\n" % s.text for s in spec) + "".join("  %s\n" % (t % {"n": n}) for t in form) + " end subroutine sub\n"
+
+
+def run_K(task):
+    res = Result()
+    _, lo, hi = task
+    names = k_names()[lo:hi]
+    for n in names:
+        for fname, form in K_FORMS:
+            src = k_program(n, form)
+            cid = "K/%s/%s" % (fname, n)
+            res.evals += 1
+            res.transitions += 1
+            hk = h64(src)
+            res.states.add(hk)
+            res.nontrivial.add(hk)
+            o3 = try_parse(src, "f2003")
+            if not o3.ok:
+                # outside the property's premise (f2003 itself does not take the name here)
+                res.outcomes["K:f2003-rejects(not judged)"] += 1
+                continue
+            kind, detail, o = judge(src, False, uses_08_name(src))
+            res.outcomes["K:" + (kind or "ok")] += 1
+            if o is not None and o.ok:
+                res.results.add(h64(canon(o.tree)))
+            if kind:
+                res.violation(sigtag(kind, "K/" + fname), "%s\n%s\n--- source:\n%s" % (cid, detail, src), {"src": src, "only08": False, "cid": cid, "tag": "K/" + fname}, cost=len(src))
+        res.sample({"case": "K/*/" + n, "source": k_program(n, K_FORMS[2][1])})
+    return res
+
+
 def plan(tier, seed):
     ts = scenarios.tasks(tier)
+    nk = len(k_names())
+    for lo in range(0, nk, 16):
+        ts.append(("K", lo, min(nk, lo + 16)))
     names = [n for n, _ in G.EXEC_CONSTRUCTS]
     for d in (1, 2):
         for first in names:
@@ -173,6 +250,8 @@ def plan(tier, seed):
 
 
 def run(task):
+    if task[0] == "K":
+        return run_K(task)
     if task[0] == "F":
         res = Result()
         n = 0
